@@ -113,6 +113,7 @@ func VerifC02_StakingMirror() {
 	for a, b := range init {
 		exp[a] = b
 	}
+	touched := map[common.Address]bool{} // accounts with a surviving balance change in the EVM journal
 	transfer := func(tag string, from, to common.Address) bool {
 		v := zz.AnyAmount(tag, 64)
 		if db.GetBalance(from).Cmp(v.BigInt()) < 0 { // CanTransfer
@@ -121,6 +122,9 @@ func VerifC02_StakingMirror() {
 		db.SubBalance(from, v.BigInt())
 		db.AddBalance(to, v.BigInt())
 		exp[from], exp[to] = exp[from].Sub(v), exp[to].Add(v)
+		if v.IsPositive() {
+			touched[from], touched[to] = true, true
+		}
 		return true
 	}
 
@@ -139,6 +143,16 @@ func VerifC02_StakingMirror() {
 		}
 		if zz.AnyBool("contractPaysThirdPartyFirst") {
 			transfer("pre", c04Contract, c04Other)
+		}
+		// a sub-call that pays the signer and then reverts: the signer's account must be left exactly as untouched as before
+		if zz.AnyBool("revertedSubCallPaysSigner") {
+			snap := db.Snapshot()
+			v := zz.AnyAmount("revertedValue", 64)
+			if db.GetBalance(c04Contract).Cmp(v.BigInt()) >= 0 {
+				db.SubBalance(c04Contract, v.BigInt())
+				db.AddBalance(c04Origin, v.BigInt())
+			}
+			db.RevertToSnapshot(snap)
 		}
 	}
 	named := c04Origin
@@ -173,8 +187,8 @@ func VerifC02_StakingMirror() {
 		panic(err)
 	}
 	shape := ""
-	if err == nil && named == c04Origin && caller != c04Origin {
-		shape = " [shape C02-F1 delegator = signer, caller = contract]"
+	if err == nil && named == c04Origin && caller != c04Origin && touched[c04Origin] {
+		shape = " [shape C02-F1 delegator = signer, caller = contract, signer journal-dirty]"
 	}
 	zz.ObserveInt("supply", bank.supply)
 	zz.Assert(bank.supply.Equal(supply0), "EVM execution leaves the total supply unchanged"+shape)
